@@ -18,7 +18,7 @@ use rtlib::{
     dag::node_name,
     replica::{CountingSpill, MemReplica},
     rt::{
-        Address, ClientError, Command as _, PeerCache, StorageProvider as _, SyncError, SyncIncoming, SyncRequester,
+        Address, ClientError, Command as _, CommandExt as _, PeerCache, SyncError, SyncIncoming, SyncRequester,
         SyncResponder, COMMAND_RESPONSE_MAX, MAX_SYNC_MESSAGE_SIZE,
     },
 };
@@ -120,8 +120,13 @@ pub struct Outcome {
     pub request: Vec<u8>,
 }
 
-fn fault(o: &mut Outcome, clause: &str, desc: String) {
-    o.faults.push((clause.to_string(), desc));
+/// Record a broken clause (arguments are evaluated before `o` is borrowed mutably).
+macro_rules! fault {
+    ($o:expr, $clause:expr, $desc:expr $(,)?) => {{
+        let c: String = ($clause).to_string();
+        let d: String = $desc;
+        $o.faults.push((c, d));
+    }};
 }
 
 fn client_err_class(e: &ClientError) -> &'static str {
@@ -167,7 +172,7 @@ pub fn session(w: &World, a: &mut Peer, b: &mut Peer, sb: &NodeSet, cfg: Cfg, rn
     // --- requesting side: Syncer::sync ---
     let mut requester = SyncRequester::new(graph, rng);
     if !requester.ready() {
-        fault(&mut o, "requester-not-ready", "a new SyncRequester is not ready".into());
+        fault!(o, "requester-not-ready", "a new SyncRequester is not ready".into());
     }
     o.steps += 1;
     let (len, sent) = {
@@ -175,7 +180,7 @@ pub fn session(w: &World, a: &mut Peer, b: &mut Peer, sb: &NodeSet, cfg: Cfg, rn
         match requester.poll(&mut bufs.req, a.r.client.provider(), &heads, &mut a.r.buffers.traversal.primary) {
             Ok(x) => x,
             Err(e) => {
-                fault(&mut o, &format!("requester-poll-error:{}", sync_err_class(&e)), format!("SyncRequester::poll failed: {e}"));
+                fault!(o, &format!("requester-poll-error:{}", sync_err_class(&e)), format!("SyncRequester::poll failed: {e}"));
                 return o;
             }
         }
@@ -191,21 +196,21 @@ pub fn session(w: &World, a: &mut Peer, b: &mut Peer, sb: &NodeSet, cfg: Cfg, rn
     match SyncIncoming::decode(&bufs.req[..len]) {
         Ok(SyncIncoming::Poll(p)) => {
             if let Err(e) = responder.receive(p) {
-                fault(&mut o, &format!("responder-receive-error:{}", sync_err_class(&e)), format!("SyncResponder::receive failed on a real request: {e}"));
+                fault!(o, &format!("responder-receive-error:{}", sync_err_class(&e)), format!("SyncResponder::receive failed on a real request: {e}"));
                 return o;
             }
         }
         Ok(_) => {
-            fault(&mut o, "request-misdecoded", "a SyncRequester::poll message did not decode as a poll".into());
+            fault!(o, "request-misdecoded", "a SyncRequester::poll message did not decode as a poll".into());
             return o;
         }
         Err(e) => {
-            fault(&mut o, "request-undecodable", format!("SyncIncoming::decode failed on a real request: {e}"));
+            fault!(o, "request-undecodable", format!("SyncIncoming::decode failed on a real request: {e}"));
             return o;
         }
     }
     if !responder.ready() {
-        fault(&mut o, "responder-not-ready", "responder not ready after receiving a sync request".into());
+        fault!(o, "responder-not-ready", "responder not ready after receiving a sync request".into());
         return o;
     }
 
@@ -218,7 +223,7 @@ pub fn session(w: &World, a: &mut Peer, b: &mut Peer, sb: &NodeSet, cfg: Cfg, rn
             break;
         }
         if o.polls >= poll_bound {
-            fault(&mut o, "no-termination", format!("responder still sending after {} polls (responder holds {} commands)", o.polls, sb.count()));
+            fault!(o, "no-termination", format!("responder still sending after {} polls (responder holds {} commands)", o.polls, sb.count()));
             break;
         }
         o.polls += 1;
@@ -226,7 +231,7 @@ pub fn session(w: &World, a: &mut Peer, b: &mut Peer, sb: &NodeSet, cfg: Cfg, rn
         let rlen = match responder.poll(&mut bufs.resp, b.r.client.provider(), &mut b.cache, &mut b.r.buffers.traversal) {
             Ok(l) => l,
             Err(e) => {
-                fault(&mut o, &format!("responder-poll-error:{}", sync_err_class(&e)), format!("SyncResponder::poll #{} failed: {e}", o.polls));
+                fault!(o, &format!("responder-poll-error:{}", sync_err_class(&e)), format!("SyncResponder::poll #{} failed: {e}", o.polls));
                 break;
             }
         };
@@ -243,14 +248,14 @@ pub fn session(w: &World, a: &mut Peer, b: &mut Peer, sb: &NodeSet, cfg: Cfg, rn
         let got = match requester.receive(msg) {
             Ok(g) => g,
             Err(e) => {
-                fault(&mut o, &format!("requester-receive-error:{}", sync_err_class(&e)), format!("SyncRequester::receive rejected response #{}: {e}", o.polls));
+                fault!(o, &format!("requester-receive-error:{}", sync_err_class(&e)), format!("SyncRequester::receive rejected response #{}: {e}", o.polls));
                 break;
             }
         };
         match (&claimed, &got) {
             (Ok((WResp::SyncResponse { response_index, commands, .. }, _)), Some(cmds)) => {
                 if *response_index != o.responses as u64 {
-                    fault(&mut o, "response-index", format!("response #{} carries response_index {response_index}", o.responses));
+                    fault!(o, "response-index", format!("response #{} carries response_index {response_index}", o.responses));
                 }
                 if commands.len() != cmds.len() {
                     mcx::machinery_error("wire mirror and SyncRequester::receive disagree on the command count");
@@ -258,11 +263,11 @@ pub fn session(w: &World, a: &mut Peer, b: &mut Peer, sb: &NodeSet, cfg: Cfg, rn
             }
             (Ok((WResp::SyncEnd { max_index, .. }, _)), None) => {
                 if *max_index != o.responses as u64 {
-                    fault(&mut o, "end-index", format!("SyncEnd.max_index = {max_index} after {} responses", o.responses));
+                    fault!(o, "end-index", format!("SyncEnd.max_index = {max_index} after {} responses", o.responses));
                 }
             }
             (Ok((m, _)), _) => {
-                fault(&mut o, "unexpected-message", format!("responder sent {m:?} in reply to a sync request"));
+                fault!(o, "unexpected-message", format!("responder sent {m:?} in reply to a sync request"));
                 break;
             }
             (Err(e), _) => mcx::machinery_error(&format!("wire mirror cannot read a real response: {e}")),
@@ -282,14 +287,14 @@ pub fn session(w: &World, a: &mut Peer, b: &mut Peer, sb: &NodeSet, cfg: Cfg, rn
         // soundness: every delivered command is one the responder has committed, verbatim
         for c in cmds.iter() {
             match w.idx_of.get(&c.id()) {
-                None => fault(&mut o, "foreign-command", format!("delivered command {} is not in the universe", c.id())),
+                None => fault!(o, "foreign-command", format!("delivered command {} is not in the universe", c.id())),
                 Some(&i) => {
                     let u = &w.cmds[i];
                     if !sb.has(i) {
-                        fault(&mut o, "uncommitted-command", format!("delivered command {} is not committed on the responder", node_name(i)));
+                        fault!(o, "uncommitted-command", format!("delivered command {} is not committed on the responder", node_name(i)));
                     }
                     if c.parent() != u.prior || c.priority() != u.priority || c.bytes() != &u.data[..] || c.policy() != u.policy.as_deref() {
-                        fault(&mut o, "altered-command", format!("delivered command {} differs from the committed one", node_name(i)));
+                        fault!(o, "altered-command", format!("delivered command {} differs from the committed one", node_name(i)));
                     }
                     o.delivered.push(i);
                 }
@@ -302,8 +307,8 @@ pub fn session(w: &World, a: &mut Peer, b: &mut Peer, sb: &NodeSet, cfg: Cfg, rn
             Ok(n) => o.added += n,
             Err(e) => {
                 let names: Vec<String> = o.delivered.iter().map(|&i| node_name(i)).collect();
-                fault(
-                    &mut o,
+                fault!(
+                    o,
                     &format!("add-commands-error:{}", client_err_class(&e)),
                     format!("add_commands of response #{} failed: {e}; delivered so far: {}", o.responses - 1, names.join(",")),
                 );
@@ -318,13 +323,13 @@ pub fn session(w: &World, a: &mut Peer, b: &mut Peer, sb: &NodeSet, cfg: Cfg, rn
     if cfg.mode == Mode::Full {
         if o.ended {
             if responder.ready() {
-                fault(&mut o, "responder-ready-after-end", "responder still ready after SyncEnd".into());
+                fault!(o, "responder-ready-after-end", "responder still ready after SyncEnd".into());
             }
             if requester.ready() {
-                fault(&mut o, "requester-ready-after-end", "requester wants to send after a clean SyncEnd".into());
+                fault!(o, "requester-ready-after-end", "requester wants to send after a clean SyncEnd".into());
             }
         } else if o.faults.is_empty() {
-            fault(&mut o, "no-end-message", format!("session stopped after {} polls without a SyncEnd", o.polls));
+            fault!(o, "no-end-message", format!("session stopped after {} polls without a SyncEnd", o.polls));
         }
         if trx.is_none() {
             // run_full_session opens the transaction before the loop and always commits it
@@ -335,12 +340,12 @@ pub fn session(w: &World, a: &mut Peer, b: &mut Peer, sb: &NodeSet, cfg: Cfg, rn
     if let Some(t) = trx {
         o.steps += 1;
         if let Err(e) = a.r.client.commit(t, &mut a.r.sink, &mut a.r.buffers, CountingSpill::new) {
-            fault(&mut o, &format!("commit-error:{}", client_err_class(&e)), format!("commit after the session failed: {e}"));
+            fault!(o, &format!("commit-error:{}", client_err_class(&e)), format!("commit after the session failed: {e}"));
         }
         if o.responses > 0 {
             o.steps += 1;
             if let Err(e) = a.r.client.update_heads(graph, addrs.iter().copied(), &mut a.cache, &mut a.r.buffers.traversal.primary) {
-                fault(&mut o, &format!("update-heads-error:{}", client_err_class(&e)), format!("update_heads after the session failed: {e}"));
+                fault!(o, &format!("update-heads-error:{}", client_err_class(&e)), format!("update_heads after the session failed: {e}"));
             }
         }
     }
